@@ -4,15 +4,16 @@ import AlatorVerif.Model.Basic
 namespace PBk
 open PU Proto
 
-/-- which of the repairs F4, F5a, F5b, F6a are in the tree being modelled -/
+/-- which of the repairs F4, F5a, F5b, F6a, F10 are in the tree being modelled -/
 structure Variant where
   ceilFixed : Bool
   contFixed : Bool
   clampFixed : Bool
   limitFixed : Bool
+  capFixed : Bool      -- F10: the partial sale of a liquidation is capped at the position held
 
-def Variant.pinned : Variant := ⟨false, false, false, false⟩
-def Variant.repaired : Variant := ⟨true, true, true, true⟩
+def Variant.pinned : Variant := ⟨false, false, false, false, false⟩
+def Variant.repaired : Variant := ⟨true, true, true, true, true⟩
 
 variable {σ α : Type} [DecidableEq σ] [Add α] [Sub α] [Mul α] [Div α] [Neg α] [OfNat α 0] [OfNat α 1]
   [OfScientific α] [LT α] [DecidableLT α] [LE α] [DecidableLE α] [HasFloor α]
@@ -156,7 +157,10 @@ def walk (v : Variant) (b : Brk σ α) : List σ → α → List (σ × α) → 
     else
       match b.latest k with
       | some q =>
-        let n := if v.ceilFixed then HasFloor.ceil (rem / q.bid) else rem / HasFloor.ceil q.bid
+        let n0 := if v.ceilFixed then HasFloor.ceil (rem / q.bid) else rem / HasFloor.ceil q.bid
+        let n := if v.capFixed then
+            (match b.hold k with | some h => if h < n0 then h else n0 | none => n0)
+          else n0
         .done (acc ++ [(k, n)])
       | none => .panic
 
